@@ -35,4 +35,15 @@ def _errorclass_sets(rep):
     return rep["clause"] in r.invariant_violated
 
 
-REPLAYERS = {"errorclass_case": _errorclass_case, "errorclass_sets": _errorclass_sets}
+def _session_ops(rep):
+    from harness.props import session
+    from harness.drivers import server_drv
+    t = server_drv.run_session_ops(rep["ops"])
+    res = validate.validate("SessionStoreTrace", [t], session.trace_constants(), work=os.path.join(tlc.WORK, "replay_ss"), jobs=1)
+    print("rejected at:", res["rejected"])
+    for e in t[: (res["rejected"].get(0) or 0)]:
+        print(json.dumps(e, default=str))
+    return bool(res["rejected"])
+
+
+REPLAYERS = {"session_ops": _session_ops, "errorclass_case": _errorclass_case, "errorclass_sets": _errorclass_sets}
